@@ -1074,7 +1074,12 @@ class TTFont(object):
             self.glyphOrder = cff.getGlyphOrder()
         elif "post" in self:
             # TrueType font
-            glyphOrder = self["post"].getGlyphOrder()
+            post = self["post"]
+            if hasattr(post, "getGlyphOrder"):
+                glyphOrder = post.getGlyphOrder()
+            else:
+                # undecodable 'post' kept as raw data (ignoreDecompileErrors)
+                glyphOrder = None
             if glyphOrder is None:
                 #
                 # No names found in the 'post' table.
